@@ -359,6 +359,8 @@ def h_lex_string(k: int, triples: bool, nf: int, ns: int, **sym):
             bound_int(si, 0, ns)
             pieces.append(progs.pick(si, TXT_SEPS[:ns]))
     text = ''.join(pieces)
+    from vflib.engine import case
+    case(text)
     want = []
     for ln, line in enumerate(ref_split_lines(text), 1):
         want += [(t, x, ln, o) for t, x, o in ref_lex_line(line, triples)]
